@@ -8,8 +8,9 @@
 (* must report for a program is the program itself plus the derived facts: *)
 (* Thrift's implicit enum numbering, union members optional, requiredness  *)
 (* defaults.  The second file of a two-file program (inc.frugal) is fixed: *)
-(* struct Ext, enum ExtE {P, Q}, const EXTC, service ExtSvc; so are the    *)
-(* files of a program with a tree of includes (AddTree).                   *)
+(* struct Ext, enum ExtE {P, Q}, typedefs of both and of a list, typedef   *)
+(* i64 Thing (a name the main file may declare differently), const EXTC,   *)
+(* service ExtSvc; so are the files of a tree of includes (AddTree).       *)
 (* The lexical style (separators, comments, quotes, layout) is chosen by   *)
 (* the renderer and is not part of the model.                              *)
 (***************************************************************************)
@@ -18,11 +19,12 @@ CONSTANTS MaxDecls,     \* bound on declarations per kind
           Tricky,       \* TRUE: identifier pools contain names that start with keywords (i32x, doubleValue, voidable ...)
           EmitAt,       \* programs are emitted after this many steps
           WithBreaks,   \* TRUE: the last step of a walk may be one invalidating edit
-          Focus,        \* "all", or "enums" / "scopes" / "typedefs" / "enumrefs" / "annotations" / "fields" / "breaks": restrict the builder to one family of declarations
+          Focus,        \* "all", or "enums" / "scopes" / "typedefs" / "enumrefs" / "annotations" / "fields" / "breaks" / "uses": restrict the builder to one family of declarations
           Hard          \* "none", or one family of valid constructs the generators are known to mishandle; the last step of a
                         \* walk then adds that construct (C11 keeps these apart from all other programs so that a recorded
                         \* finding cannot hide a new one): "keywords" = identifiers that are reserved words of a target
-                        \* language, "container-keys" = set elements / map keys of container type
+                        \* language, "container-keys" = set elements / map keys of container type, "nested-typedef" = a typedef of an
+                        \* included file whose target is declared in a file the main file does not include
 NONE == -99
 \* ---- types ----
 B(n) == [k |-> "base", n |-> n]
@@ -48,6 +50,7 @@ Empty == [ns |-> <<>>, include |-> FALSE, tree |-> FALSE, badinclude |-> FALSE, 
 Declared(p) == Names(p.typedefs) \cup Names(p.enums) \cup Names(p.structs)
 \* user types a field may refer to
 Refs(p) == {R(n) : n \in Declared(p)} \cup (IF p.include THEN {R("inc.Ext"), R("inc.ExtE")} ELSE {})
+                                       \cup (IF p.include THEN {R("inc.Thing"), R("inc.ExtAlias"), R("inc.ExtS"), R("inc.ExtL")} ELSE {})
                                        \cup (IF p.tree THEN {R("left.L"), R("right.Rt")} ELSE {})
 Leafs(p) == BaseTypes \cup Refs(p)
 \* a small but shape-complete pool of types over what is declared
@@ -63,7 +66,7 @@ Defaults(t) == {[k |-> "none"]} \cup
   (CASE t = B("i32") -> {[k |-> "int", i |-> 5], [k |-> "int", i |-> -7]}
      [] t = B("i64") -> {[k |-> "int", i |-> 0]}
      [] t = B("bool") -> {[k |-> "bool", b |-> TRUE]}
-     [] t = B("double") -> {[k |-> "double", s |-> "1.5"], [k |-> "double", s |-> "-2.0e3"]}
+     [] t = B("double") -> {[k |-> "double", s |-> "1.5"], [k |-> "double", s |-> "-2.0e3"], [k |-> "int", i |-> 2]}   \* (a double may be written 2)
      [] t = B("string") -> {[k |-> "str", s |-> "dflt"], [k |-> "str", s |-> ""], [k |-> "str", s |-> "it's"]}
      [] t = L(B("i32")) -> {[k |-> "list", items |-> <<[k |-> "int", i |-> 1], [k |-> "int", i |-> 2]>>]}
      [] t = M(B("string"), B("i32")) -> {[k |-> "map", pairs |-> <<<<[k |-> "str", s |-> "a"], [k |-> "int", i |-> 1]>>>>]}
@@ -89,7 +92,11 @@ Reaches(q, from, target, fuel) ==
   /\ fuel > 0
   /\ \E i \in Idx(q.typedefs) : /\ q.typedefs[i].name = from /\ q.typedefs[i].t.k = "ref"
        /\ (q.typedefs[i].t.n = target \/ Reaches(q, q.typedefs[i].t.n, target, fuel - 1))
-NoTypedefCycle(q) == \A i \in Idx(q.typedefs) : ~Reaches(q, q.typedefs[i].name, q.typedefs[i].name, 4)
+RECURSIVE Mentions(_, _)
+Mentions(t, n) == \/ t.k = "ref" /\ t.n = n
+                  \/ t.k \in {"list", "set"} /\ Mentions(t.v, n)
+                  \/ t.k = "map" /\ (Mentions(t.key, n) \/ Mentions(t.v, n))
+NoTypedefCycle(q) == \A i \in Idx(q.typedefs) : ~Reaches(q, q.typedefs[i].name, q.typedefs[i].name, 4) /\ ~Mentions(q.typedefs[i].t, q.typedefs[i].name)
 ExceptionNames(q) == {q.structs[i].name : i \in {j \in Idx(q.structs) : q.structs[j].kind = "exception"}}
 DefaultFits(f) == f.dflt \in Defaults(f.t) \/ f.dflt.k = "id"
 Valid(p) ==
@@ -133,7 +140,11 @@ BreakBase == [AnnBase EXCEPT !.structs = <<[kind |-> "struct", name |-> "Rec", a
                                               <<[id |-> 1, req |-> "default", t |-> B("i32"), name |-> "count", dflt |-> [k |-> "none"]]>>],
                                            [kind |-> "exception", name |-> "Other", ann |-> FALSE, fields |-> <<>>]>>,
                               !.services[1].methods[1].throws = <<[id |-> 1, req |-> "default", t |-> R("Other"), name |-> "ex", dflt |-> [k |-> "none"]]>>]
-Init == /\ p = (IF Focus = "enumrefs" THEN EnumRefsBase ELSE IF Focus = "annotations" THEN AnnBase ELSE IF Focus = "breaks" THEN BreakBase
+\* the focus "uses": one step from a program with both kinds of includes, a service with one bare method and a scope, every
+\* type of the pool is used once as the only argument, the only result or the only operation of an otherwise empty user
+UsesBase == [EnumRefsBase EXCEPT !.include = TRUE, !.tree = TRUE,
+                                 !.services = <<[name |-> "Svc", extends |-> "", methods |-> <<[name |-> "get", oneway |-> FALSE, ret |-> <<>>, args |-> <<>>, throws |-> <<>>, anns |-> 0]>>]>>]
+Init == /\ p = (IF Focus = "uses" THEN UsesBase ELSE IF Focus = "enumrefs" THEN EnumRefsBase ELSE IF Focus = "annotations" THEN AnnBase ELSE IF Focus = "breaks" THEN BreakBase
                 ELSE IF Focus = "fields" THEN [EnumRefsBase EXCEPT !.include = TRUE, !.tree = TRUE] ELSE Empty)
         /\ steps = 0 /\ broken = "none"
 Fields(p0, n, kind) ==
@@ -173,13 +184,13 @@ AddStruct == /\ Len(p.structs) < MaxDecls
              /\ \E n \in TypeNames \ Declared(p), k \in {"struct", "union", "exception"} :
                   p' = [p EXCEPT !.structs = Append(@, [kind |-> k, name |-> n, fields |-> <<>>, ann |-> FALSE])]
 \* (the focus "fields" pins id and name, so that one exhaustive step from its base yields one struct per type x requiredness x default)
-FIds == IF Focus = "fields" THEN {1} ELSE {1, 2, 3, 7, 16}
-FNames == IF Focus = "fields" THEN {"a"} ELSE FieldNames
+FIds == IF Focus \in {"fields", "uses"} THEN {1} ELSE {1, 2, 3, 7, 16}
+FNames == IF Focus \in {"fields", "uses"} THEN {"a"} ELSE FieldNames
 AddField == \E s \in Idx(p.structs) : /\ Len(p.structs[s].fields) < 3
               /\ \E id \in FIds, r \in Reqs, t \in TypesF(p), n \in FNames \ Names(p.structs[s].fields) :
                    /\ ~\E i \in Idx(p.structs[s].fields) : p.structs[s].fields[i].id = id
                    /\ \E d \in Defaults(t) :
-                        p' = [p EXCEPT !.structs[s].fields = Append(@, [id |-> id, req |-> EffReq(p.structs[s].kind, r), t |-> t, name |-> n, dflt |-> d])]
+                        p' = [p EXCEPT !.structs[s].fields = Append(@, [id |-> id, req |-> r, t |-> t, name |-> n, dflt |-> d])]    \* req as written: a parser reports EffReq
 \* a field of an enum type - directly or through a typedef chain - with one of the enum's values as default (Enum.VALUE)
 RECURSIVE EnumBehind(_, _, _)
 EnumBehind(q, t, fuel) ==
@@ -204,7 +215,8 @@ AddService == /\ Len(p.services) < MaxDecls
                    /\ p' = [p EXCEPT !.services = Append(@, [name |-> n, extends |-> e, methods |-> <<>>])]
 Exceptions(q) == {q.structs[i].name : i \in {j \in Idx(q.structs) : q.structs[j].kind = "exception"}}
 AddMethod == \E s \in Idx(p.services) : /\ Len(p.services[s].methods) < 3
-               /\ \E n \in MethodNames \ Names(p.services[s].methods), ow \in BOOLEAN, r \in {<<>>} \cup {<<t>> : t \in TypesF(p)} :
+               /\ \E n \in (IF Focus = "uses" THEN {"m2"} ELSE MethodNames) \ Names(p.services[s].methods), ow \in (IF Focus = "uses" THEN {FALSE} ELSE BOOLEAN),
+                     r \in {<<>>} \cup {<<t>> : t \in TypesF(p)} :
                     /\ (ow => r = <<>>)
                     /\ p' = [p EXCEPT !.services[s].methods = Append(@, [name |-> n, oneway |-> ow, ret |-> r, args |-> <<>>, throws |-> <<>>, anns |-> 0])]
 \* a method carries 0..3 annotations; the k-th one is (verif.k<k> = "v<k>"), in this order
@@ -214,7 +226,8 @@ AnnotateMethod == \E s \in Idx(p.services) : \E m \in Idx(p.services[s].methods)
 AddArg == \E s \in Idx(p.services) : \E m \in Idx(p.services[s].methods) :
             LET mm == p.services[s].methods[m] IN
             /\ Len(mm.args) < 2
-            /\ \E id \in {1, 2, 5}, r \in {"default", "optional"}, t \in TypesF(p), n \in FieldNames \ Names(mm.args) :
+            /\ \E id \in (IF Focus = "uses" THEN {1} ELSE {1, 2, 5}), r \in (IF Focus = "uses" THEN {"default"} ELSE {"default", "optional"}),
+                  t \in TypesF(p), n \in FNames \ Names(mm.args) :
                  /\ ~\E i \in Idx(mm.args) : mm.args[i].id = id
                  /\ p' = [p EXCEPT !.services[s].methods[m].args = Append(@, [id |-> id, req |-> r, t |-> t, name |-> n, dflt |-> [k |-> "none"]])]
 AddThrow == \E s \in Idx(p.services) : \E m \in Idx(p.services[s].methods) :
@@ -229,7 +242,7 @@ AddScope == /\ Len(p.scopes) < MaxDecls
             /\ \E n \in ScopeNames \ Names(p.scopes), pre \in ScopePrefixes :
                  p' = [p EXCEPT !.scopes = Append(@, [name |-> n, prefix |-> pre, ops |-> <<>>])]
 AddOp == \E s \in Idx(p.scopes) : /\ Len(p.scopes[s].ops) < 2
-           /\ \E n \in OpNames \ Names(p.scopes[s].ops), t \in TypesF(p) :
+           /\ \E n \in (IF Focus = "uses" THEN {"Created"} ELSE OpNames) \ Names(p.scopes[s].ops), t \in TypesF(p) :
                 p' = [p EXCEPT !.scopes[s].ops = Append(@, [name |-> n, t |-> t])]
 \* Focus = "all": every action; otherwise one family of declarations only, which makes an exhaustive exploration of that family
 \* several steps deep affordable (every state is then emitted, not only the last one of a walk)
@@ -238,6 +251,7 @@ AddAny == CASE Focus = "enums" -> AddEnum \/ AddEnumValue
             [] Focus = "typedefs" -> AddEnum \/ AddTypedef
             [] Focus = "annotations" -> AddMethod \/ AnnotateMethod
             [] Focus = "breaks" -> FALSE
+            [] Focus = "uses" -> AddArg \/ AddMethod \/ AddOp
             [] Focus = "fields" -> AddField \/ AddEnumDefaultField
             [] Focus = "enumrefs" -> \/ AddEnum \/ AddEnumValue \/ AddTypedef \/ AddStruct \/ AddField \/ AddEnumDefaultField \/ AddEnumConst
                                      \/ AddService \/ AddMethod \/ AddArg \/ AddScope \/ AddOp
@@ -255,6 +269,7 @@ Break ==
   \/ Brk([p EXCEPT !.typedefs = Append(@, [name |-> "Cyc", t |-> R("Cyc")])], "typedef-cycle-1")
   \/ Brk([p EXCEPT !.typedefs = Append(Append(@, [name |-> "CycA", t |-> R("CycB")]), [name |-> "CycB", t |-> R("CycA")])], "typedef-cycle-2")
   \/ Brk([p EXCEPT !.typedefs = Append(Append(Append(@, [name |-> "CycA", t |-> R("CycB")]), [name |-> "CycB", t |-> R("CycC")]), [name |-> "CycC", t |-> R("CycA")])], "typedef-cycle-3")
+  \/ Brk([p EXCEPT !.typedefs = Append(@, [name |-> "CycL", t |-> L(R("CycL"))])], "typedef-cycle-through-container")
   \* an alias that leads into a cycle it is not part of, declared before the cycle's members
   \/ Brk([p EXCEPT !.typedefs = Append(Append(Append(@, [name |-> "CycT", t |-> R("CycA")]), [name |-> "CycA", t |-> R("CycB")]), [name |-> "CycB", t |-> R("CycA")])], "typedef-cycle-tail")
   \/ \E s \in Idx(p.services) : Brk([p EXCEPT !.services[s].methods = Append(@, [name |-> "badow", oneway |-> TRUE, ret |-> <<B("i32")>>, args |-> <<>>, throws |-> <<>>, anns |-> 0])], "oneway-with-result")
@@ -297,7 +312,15 @@ Harden ==
   \/ /\ Hard = "container-keys"
      /\ Brk([p EXCEPT !.structs = Append(@, [kind |-> "struct", name |-> "CkS", ann |-> FALSE, fields |->
                   <<F0(1, S(L(B("i32"))), "sl"), F0(2, M(L(B("string")), B("i32")), "ml")>>])], "hard:container-keys")
-IsHard(b) == b \in {"hard:keywords", "hard:container-keys"}
+  \* left.LeftOops is a typedef in left.frugal of the exception Oops declared in a/common.frugal, a file the main file does not
+  \* include: the main file has no name for the target of the typedef
+  \/ /\ Hard = "nested-typedef"
+     /\ Brk([p EXCEPT !.tree = TRUE,
+                      !.structs = Append(@, [kind |-> "struct", name |-> "NtS", ann |-> FALSE, fields |-> <<F0(1, R("left.LeftOops"), "oops")>>]),
+                      !.services = Append(@, [name |-> "NtSvc", extends |-> "", methods |->
+                                     <<[name |-> "nt", oneway |-> FALSE, ret |-> <<>>, args |-> <<>>, anns |-> 0,
+                                        throws |-> <<F0(1, R("left.LeftOops"), "o")>>]>>])], "hard:nested-typedef")
+IsHard(b) == b \in {"hard:keywords", "hard:container-keys", "hard:nested-typedef"}
 Next == /\ steps' = steps + 1 /\ broken = "none"
         /\ \/ (steps = EmitAt - 1 /\ WithBreaks /\ Break)
            \/ (steps = EmitAt - 1 /\ Hard # "none" /\ Harden)
